@@ -339,15 +339,19 @@ func Classify(r *Response, cfg Config) Class {
 				for _, e := range exts {
 					switch {
 					case cfg.Offered(e.Name):
+						// An offered name given twice still "names one it
+						// offered"; the server sent it twice, so it is returned twice.
 						for _, prev := range c.Extensions {
 							if prev.Name == e.Name {
-								c.Open = append(c.Open, "ext:repeated")
+								c.Notes = append(c.Notes, "ext:repeated")
 								break
 							}
 						}
 						c.Extensions = append(c.Extensions, e)
 					case offeredFold(cfg, e.Name):
-						c.Open = append(c.Open, "ext:name-case")
+						// "one it offered" is the name as offered, byte for byte
+						// (as for subprotocols); a different spelling was not offered.
+						c.Fail = append(c.Fail, "ext:name-case")
 					default:
 						c.Fail = append(c.Fail, "ext:not-offered")
 					}
@@ -379,6 +383,12 @@ func Classify(r *Response, cfg Config) Class {
 	// requested tokens: a comma- or blank-separated list is not, whether or not
 	// a requested token occurs in it, and could not be returned as "the
 	// subprotocol the server sent" either.
+	// Every Sec-WebSocket-Protocol line counts ("a subprotocol in the
+	// response"): one unrequested value anywhere forces the failure, also next
+	// to a line with a requested one. An empty value is never a requested
+	// token. Only several lines that all carry requested values stay open: the
+	// statement speaks of "a subprotocol" and does not say which one is then
+	// "the subprotocol the server sent".
 	bad, empty := 0, 0
 	for _, v := range protoVals {
 		switch {
@@ -390,10 +400,6 @@ func Classify(r *Response, cfg Config) Class {
 		}
 	}
 	switch {
-	case bad > 0 && bad < len(protoVals):
-		// several header lines, not all of them bad: "duplicated headers with
-		// mixed values" are left open (DESIGN §4.10)
-		c.Open = append(c.Open, "protocol:dup-mixed")
 	case bad > 0:
 		label := "protocol:not-requested"
 		for _, v := range protoVals {
@@ -401,9 +407,12 @@ func Classify(r *Response, cfg Config) Class {
 				label = "protocol:list"
 			}
 		}
+		if len(protoVals) > 1 && bad < len(protoVals) {
+			label = "protocol:dup-mixed"
+		}
 		c.Fail = append(c.Fail, label)
 	case empty > 0:
-		c.Open = append(c.Open, "protocol:empty")
+		c.Fail = append(c.Fail, "protocol:empty")
 	case len(protoVals) > 1:
 		c.Open = append(c.Open, "protocol:dup")
 	case len(protoVals) == 1:
